@@ -33,7 +33,8 @@ func NewHarness(run *vk.Run, prefix string) *Harness {
 		if v.Deadlock {
 			run.Violation(prefix+":deadlock", "program hung with goroutines parked below ebu frames (publish / Wait did not return)", map[string]any{"case": h.curIdx, "program": h.cur, "dump": clip(v.Dump, 20000)})
 		} else {
-			run.Inconclusive("watchdog fired without a confirmed deadlock")
+			run.Count("watchdog_slow_windows", 1)
+			return
 		}
 		run.Finish()
 		watchdog.Exit()
